@@ -596,7 +596,10 @@ class ZipFileSystem(FileSystem[ZipInfo]):
     def walk_folder(self, folder: str = '') -> Iterator[File[Self]]:
         """Yield files in a folder."""
         # \\ is not allowed in zips.
-        folder = folder.replace('\\', '/').casefold()
+        folder = folder.replace('\\', '/').casefold().rstrip('/')
+        if folder:
+            # Only match whole folder names: "materials" is not a parent of "materials2/x".
+            folder += '/'
         for filename, fileinfo in self._name_to_info.items():
             if filename.startswith(folder):
                 yield File(self, fileinfo.filename, fileinfo)
